@@ -26,7 +26,7 @@ func init() {
 				n = 25000
 			}
 			return fw.Meta{N: n, Level: "exploration", Chunk: 10, CaseTimeoutS: 300, MinNT: 150,
-				Rule:        "one case = a stack of 1..6 real tables over a universe of 3..30 keys (optionally incl. the empty key) with arbitrarily overlapping key sets, unique values per (table,key), tombstones (nil) over values and values over tombstones, some empty values, empty tables; model = apply tables oldest->newest. Checked: stacked Get/Contains on all keys+neighbours, Scan, ScanStartingAt and ScanRange for probe samples, MergeCompact with both provided reductions into a real writer (read back), MergeCompactIterator, and plain Merge on a disjoint re-partition. Non-trivial: >=3 tables sharing >=1 key with differing values and >=1 tombstone-over-value; distinct by content hash",
+				Rule:        "one case = a stack of 1..6 real tables over a universe of 3..30 keys (optionally incl. the empty key) with arbitrarily overlapping key sets, unique values per (table,key), tombstones (nil) over values and values over tombstones, some empty values, empty tables; index loader default/disk/skiplist/slice by case; model = apply tables oldest->newest. Checked: stacked Get/Contains on all keys+neighbours, Scan, ScanStartingAt and ScanRange for probe samples, MergeCompact with both provided reductions into a real writer (read back), MergeCompactIterator, and plain Merge on a disjoint re-partition. Non-trivial: >=3 tables sharing >=1 key with differing values and >=1 tombstone-over-value; distinct by content hash",
 				MinObs:      map[string]int64{"stacked_gets": 10000, "stacked_scans": 3000, "compacting_merges": 500, "plain_merges": 200, "stacks_with_empty_key": 50, "tombstone_over_value": 500, "value_over_tombstone": 300, "same_key_in_3plus_tables": 300},
 				Assumptions: []string{"tombstone = nil value; the skip-tombstones reduction additionally drops empty values (as documented)", "a merged table is compared after filtering nil values from its read-back, so both 'tombstones dropped' and 'tombstones kept' outputs are accepted for the latest-wins reduction"},
 			}
@@ -55,12 +55,27 @@ func c08WriteTable(dir string, kvs []kv) error {
 	return w.Close()
 }
 
+// c08Loader selects the index loader of all tables of a case ("" = default)
+var c08Loader = ""
+
 func c08Open(dir string) (sstables.SSTableReaderI, error) {
-	return sstables.NewSSTableReader(sstables.ReadBasePath(dir), sstables.ReadWithKeyComparator(skiplist.BytesComparator{}))
+	opts := []sstables.ReadOption{sstables.ReadBasePath(dir), sstables.ReadWithKeyComparator(skiplist.BytesComparator{})}
+	switch c08Loader {
+	case "disk":
+		opts = append(opts, sstables.ReadIndexLoader(&sstables.DiskIndexLoader{}))
+	case "skiplist":
+		opts = append(opts, sstables.ReadIndexLoader(&sstables.SkipListIndexLoader{KeyComparator: skiplist.BytesComparator{}, ReadBufferSize: 4096}))
+	case "slice":
+		opts = append(opts, sstables.ReadIndexLoader(&sstables.SliceKeyIndexLoader{ReadBufferSize: 4096}))
+	}
+	return sstables.NewSSTableReader(opts...)
 }
 
 func runC08(c *fw.Case) {
 	r := c.R
+	c08Loader = []string{"", "disk", "skiplist", "slice"}[c.Idx%4] // cases of one child run sequentially
+	c.Obs("stacks_with_loader_"+map[string]string{"": "default"}[c08Loader]+c08Loader, 1)
+	c.HashAdd("loader", c08Loader)
 	nk := 3 + r.Intn(28)
 	universe := gen.AscendingKeys(r, nk, gen.Pick(r, 0, 1, 3, 4))
 	hasEmptyKey := false
